@@ -177,3 +177,93 @@ class RawNode:
     def send(self, dest, data):
         from bacpypes.pdu import PDU, Address
         self.client.request(PDU(bytes(data), source=self.address, destination=Address(dest) if not hasattr(dest, 'addrType') else dest))
+
+
+class FauxMux:
+    """socket-free stand-in for UDPMultiplexer: AnnexJCodec above, a vlan.IPNode below"""
+    def __new__(cls, addr, network):
+        from bacpypes.comm import Client, Server, bind
+        from bacpypes.vlan import IPNode
+        from bacpypes.pdu import Address, LocalBroadcast, PDU
+        from bacpypes.bvllservice import unpack_ip_addr
+
+        class _Mux(Client, Server):
+            def __init__(self):
+                Client.__init__(self)
+                Server.__init__(self)
+                self.address = addr
+                self.node = IPNode(addr, network)
+                bind(self, self.node)
+
+            def indication(self, pdu):
+                if pdu.pduDestination.addrType == Address.localBroadcastAddr:
+                    dest = addr.addrBroadcastTuple
+                elif pdu.pduDestination.addrType == Address.localStationAddr:
+                    dest = unpack_ip_addr(pdu.pduDestination.addrAddr)
+                else:
+                    raise RuntimeError("invalid destination address type")
+                self.request(PDU(pdu, source=addr.addrTuple, destination=dest))
+
+            def confirmation(self, pdu):
+                src = Address(pdu.pduSource)
+                dest = LocalBroadcast() if pdu.pduDestination == addr.addrBroadcastTuple else Address(pdu.pduDestination)
+                self.response(PDU(pdu, source=src, destination=dest))
+        return _Mux()
+
+
+def BIPStack(clock, ipnet, ip, device_id, services=(), **devkw):
+    """application stack over BIPSimple / AnnexJCodec / FauxMux on a vlan.IPNetwork"""
+    from bacpypes.app import ApplicationIOController
+    from bacpypes.appservice import StateMachineAccessPoint, ApplicationServiceAccessPoint
+    from bacpypes.netservice import NetworkServiceAccessPoint, NetworkServiceElement
+    from bacpypes.bvllservice import BIPSimple, AnnexJCodec
+    from bacpypes.comm import bind
+    from bacpypes.pdu import Address
+    from bacpypes.iocb import IOCB
+
+    class _NSE(NetworkServiceElement):
+        _startup_disabled = True
+
+    class _App(*(tuple(services) + (ApplicationIOController,))):
+        def __init__(self, device, addr):
+            self.address = addr
+            ApplicationIOController.__init__(self, device)
+            self.asap = ApplicationServiceAccessPoint()
+            self.smap = StateMachineAccessPoint(device)
+            self.smap.deviceInfoCache = self.deviceInfoCache
+            self.nsap = NetworkServiceAccessPoint()
+            self.nse = _NSE()
+            bind(self.nse, self.nsap)
+            bind(self, self.asap, self.smap, self.nsap)
+            self.bip = BIPSimple()
+            self.annexj = AnnexJCodec()
+            self.mux = FauxMux(addr, ipnet)
+            bind(self.bip, self.annexj, self.mux)
+            self.nsap.bind(self.bip, address=addr)
+
+    dev = make_device(device_id, **devkw)
+    app = _App(dev, Address(ip))
+    app.device = dev
+    return app
+
+
+class RawIPNode:
+    """bare node on a vlan.IPNetwork: records datagrams addressed to it, injects raw datagrams"""
+    def __init__(self, ipnet, ip):
+        from bacpypes.vlan import IPNode
+        from bacpypes.comm import Client, bind
+        from bacpypes.pdu import Address
+        outer = self
+
+        class _C(Client):
+            def confirmation(self, pdu):
+                outer.frames.append((pdu.pduSource, pdu.pduDestination, bytes(pdu.pduData)))
+        self.frames = []
+        self.address = Address(ip)
+        self.node = IPNode(self.address, ipnet)
+        self.client = _C()
+        bind(self.client, self.node)
+
+    def send(self, dest_tuple, data):
+        from bacpypes.pdu import PDU
+        self.client.request(PDU(bytes(data), source=self.address.addrTuple, destination=dest_tuple))
